@@ -2,6 +2,7 @@
 From Coq Require Import List String Bool ZArith.
 From Thunder Require Import Lib.Json Gql.Types Gql.Value Gql.Query Gql.Ref Gql.Exec Gql.ProofsDirective
   Gql.ProofsRef Gql.ProofsMain Gql.ProofsEnt Gql.ProofsTop Gql.ProofsPrune Gql.ProofsParsePrune Gql.Witness Gql.ProofsWitness.
+From Thunder Require Federation.Normalize Federation.Executor Federation.FedWitness Gql.FedPrune Gql.FedPruneTie.
 Import ListNotations.
 Open Scope string_scope.
 
@@ -88,6 +89,77 @@ Theorem spread_independence_original_refuted :
   /\ result_field "b" (exec_fifo fixed w_schema [] w_f7 w_root) = result_field "b" (exec_fifo fixed w_schema [] w_f7' w_root).
 Proof. exact f7_independence_witness. Qed.
 Print Assumptions spread_independence_original_refuted.
+
+(** * Through the federation gateway.
+    The gateway's reading of a query is the federation model's (Federation/Normalize.v: field selections
+    and fragments with their evaluated directives, spreads inlined); [fprune] is the textual deletion on
+    that reading, and it IS C19's [prune] seen through [to_fed] (the way graphql.Parse hands the query
+    to the gateway). *)
+Theorem gateway_reading_commutes_with_prune : forall vs q,
+  directives_wellformed vs q = true ->
+  FedPruneTie.to_fed vs (prune vs q) = FedPrune.fprune (FedPruneTie.to_fed vs q).
+Proof. exact FedPruneTie.to_fed_prune. Qed.
+Print Assumptions gateway_reading_commutes_with_prune.
+
+(** The combined server's reference semantics (Federation/Executor.v [eval_ref]: CollectFields and
+    ExecuteSelectionSet with @skip/@include honoured; object, union and list results; any world of data,
+    any type, object and fuel) gives the annotated and the pruned query the same answer. *)
+Theorem gateway_reference_prune : forall w g tn fuel ty id sels,
+  FedPrune.fwf sels = true ->
+  Executor.eval_ref w g tn fuel ty id (FedPrune.fprune sels) = Executor.eval_ref w g tn fuel ty id sels.
+Proof. exact FedPrune.eval_ref_prune. Qed.
+Print Assumptions gateway_reference_prune.
+
+(** Hence through the gateway.  [transparent_on w g pick q] is, verbatim, the conclusion of C06's
+    [federation_transparent] for the query q (the gateway answers, the combined server answers, equal
+    as JSON maps); C06 proves it under its premises on the federation, the data and the normal form.
+    Whenever the gateway is transparent on the annotated query and on the pruned query, it answers both
+    and both answers equal, as JSON maps, the combined server's answer to the annotated query - for
+    every world of data, federation, service choice and well-formed query. *)
+Theorem gateway_prune : forall w g pick q,
+  FedPrune.fwf q = true ->
+  FedPrune.transparent_on w g pick q -> FedPrune.transparent_on w g pick (FedPrune.fprune q) ->
+  exists a a', Executor.fed_exec w g pick false true q = Some a /\
+               Executor.fed_exec w g pick false true (FedPrune.fprune q) = Some a' /\
+               (forall r, Executor.eval_ref w g true (2 * Normalize.depth_list q + 4) "Query" 0%Z q = Some r -> jeq a r /\ jeq a' r).
+Proof. exact FedPrune.gateway_prune. Qed.
+Print Assumptions gateway_prune.
+
+(** ... and the same stated on the query as the client wrote it. *)
+Theorem gateway_prune_source : forall w g pick vs q,
+  directives_wellformed vs q = true ->
+  FedPrune.transparent_on w g pick (FedPruneTie.to_fed vs q) ->
+  FedPrune.transparent_on w g pick (FedPruneTie.to_fed vs (prune vs q)) ->
+  exists a a', Executor.fed_exec w g pick false true (FedPruneTie.to_fed vs q) = Some a /\
+               Executor.fed_exec w g pick false true (FedPruneTie.to_fed vs (prune vs q)) = Some a' /\
+               (forall r, Executor.eval_ref w g true (2 * Normalize.depth_list (FedPruneTie.to_fed vs q) + 4) "Query" 0%Z (FedPruneTie.to_fed vs q) = Some r ->
+                          jeq a r /\ jeq a' r).
+Proof. exact FedPruneTie.gateway_prune_source. Qed.
+Print Assumptions gateway_prune_source.
+
+(** On the gateway model, ShouldIncludeNode is the textual rule too. *)
+Theorem gateway_node_included_iff_every_directive_allows : forall ds,
+  nodup_keys (map fst ds) = true -> Normalize.should_include ds = FedPrune.fallowed ds.
+Proof. exact FedPrune.should_include_textual. Qed.
+Print Assumptions gateway_node_included_iff_every_directive_allows.
+
+(** Non-vacuity: a two-service federation, `self @skip(if:true) { p }  self { q }` (q on the second
+    service): the query is well formed, pruning changes it, the gateway answers both, alike. *)
+Example gateway_hypotheses_satisfiable :
+  FedPrune.fwf FedWitness.q_excl = true /\
+  FedPrune.fprune FedWitness.q_excl <> FedWitness.q_excl /\
+  Executor.fed_exec FedWitness.ww FedWitness.wg FedWitness.pick1 false true FedWitness.q_excl <> None /\
+  option_map norm (Executor.fed_exec FedWitness.ww FedWitness.wg FedWitness.pick1 false true FedWitness.q_excl)
+  = option_map norm (Executor.fed_exec FedWitness.ww FedWitness.wg FedWitness.pick1 false true (FedPrune.fprune FedWitness.q_excl)).
+Proof.
+  split; [vm_compute; reflexivity|]. split; [vm_compute; discriminate|]. split; [vm_compute; discriminate|vm_compute; reflexivity].
+Qed.
+
+(** ... and a source query with a decorated spread reads, pruned, as the pruned reading. *)
+Example gateway_reading_example :
+  FedPruneTie.to_fed [] (prune [] w_f7) = FedPrune.fprune (FedPruneTie.to_fed [] w_f7) /\
+  List.length (FedPruneTie.to_fed [] w_f7) = 2.
+Proof. split; vm_compute; reflexivity. Qed.
 
 Example theorem_hypotheses_satisfiable :
   directives_wellformed [] w_f7 = true /\ ids_wf w_f7 = true /\ wt_of w_f7 = [(10, 4)] /\
